@@ -5,6 +5,8 @@ import (
 	"context"
 	"errors"
 	"fmt"
+	"io"
+	"os"
 	"path"
 	"regexp"
 	"runtime/debug"
@@ -113,6 +115,16 @@ func (r *simRetriever) Retrieve(ctx context.Context, res *retriever.Resource) ([
 				r.mu.Lock()
 				r.fired.Inc("retrieve-error")
 				r.mu.Unlock()
+				// the identity of the error must not matter: plain, or wrapping one of the
+				// sentinel errors a real fetch can end with
+				switch ft.Param % 4 {
+				case 1:
+					return nil, fmt.Errorf("fetch of %s aborted: %w", p, context.Canceled)
+				case 2:
+					return nil, fmt.Errorf("fetch of %s timed out: %w", p, context.DeadlineExceeded)
+				case 3:
+					return nil, fmt.Errorf("fetch of %s: %w", p, os.ErrNotExist)
+				}
 				return nil, fmt.Errorf("simulated network failure fetching %s", p)
 			}
 			return []byte(f.Text), nil
@@ -160,8 +172,14 @@ func Execute(t *testing.T, w *Workload, picker core.Picker, maxSteps int) *Outco
 				o.Fired.Inc("eacces")
 				return syscall.EACCES
 			}
-			if faultFor(w, f.ID, "eio-open") != nil {
+			if ft := faultFor(w, f.ID, "eio-open"); ft != nil {
 				o.Fired.Inc("eio-open")
+				switch ft.Param % 4 {
+				case 1:
+					return fmt.Errorf("read aborted: %w", context.Canceled)
+				case 2:
+					return io.ErrUnexpectedEOF
+				}
 				return syscall.EIO
 			}
 		}
@@ -216,7 +234,7 @@ func Execute(t *testing.T, w *Workload, picker core.Picker, maxSteps int) *Outco
 			}
 		}()
 		p := parse.NewParser()
-		p.Set(parse.Settings{MaxImportDepth: w.MaxDepth})
+		p.Set(parse.Settings{MaxImportDepth: w.MaxDepth, NoDifferentVersionCheck: w.NoVerCheck})
 		arg := w.Files[0].Path
 		if w.RootArg != "" {
 			arg = w.RootArg
